@@ -37,17 +37,17 @@ func tmpBase(t interface{ Fatalf(string, ...any) }) (root, base string) {
 type fataler interface{ Fatalf(string, ...any) }
 
 type c01State struct {
-	t       fataler
-	cfg     *vlib.Config
-	base    string
-	viaYAML bool
-	d       *store.Dir
-	m       *vlib.Model
-	stale   map[string][]string // previous passwords per user name
-	hist    []string
+	t                       fataler
+	cfg                     *vlib.Config
+	base                    string
+	viaYAML                 bool
+	d                       *store.Dir
+	m                       *vlib.Model
+	stale                   map[string][]string // previous passwords per user name
+	hist                    []string
 	staleProbed, nearProbed bool
-	changed bool // some user had a successful update or remove+re-add
-	kinds   map[string]bool
+	changed                 bool // some user had a successful update or remove+re-add
+	kinds                   map[string]bool
 }
 
 func (s *c01State) reopen() {
@@ -290,7 +290,6 @@ func TestC01History(t *testing.T) {
 		vlib.Sample(map[string]any{"config": s.cfg, "history": s.hist})
 	})
 }
-
 
 // TestC01SmallScope: exhaustive small scope — every history of up to 4 operations from a 7-operation alphabet on one user,
 // under an scrypt and an argon2id default, with a probe of every password ever used after every step.
